@@ -25,6 +25,8 @@ type Dict struct {
 	// literals of the query-analysis package alone (stop words, synonyms, action / target / intent tables, context clues)
 	NLPWords   []string
 	NLPPhrases []string
+	// names the program asks the environment for (first argument of os.Getenv / os.LookupEnv, literal)
+	EnvNames []string
 }
 
 var dictCache = map[string]*Dict{}
@@ -37,6 +39,8 @@ func SourceDict(repo string) *Dict {
 	}
 	words, phrases, hot := map[string]bool{}, map[string]bool{}, map[string]bool{}
 	nlpW, nlpP := map[string]bool{}, map[string]bool{}
+	envs := map[string]bool{}
+	consts, envIdents := map[string]string{}, map[string]bool{} // string constants by name; identifiers passed to Getenv / LookupEnv
 	fset := token.NewFileSet()
 	for _, root := range []string{"internal", "cmd"} {
 		filepath.Walk(filepath.Join(repo, root), func(p string, info os.FileInfo, err error) error {
@@ -57,6 +61,31 @@ func SourceDict(repo string) *Dict {
 			ast.Inspect(f, func(n ast.Node) bool {
 				if _, ok := n.(*ast.ImportSpec); ok {
 					return false
+				}
+				if call, ok := n.(*ast.CallExpr); ok && len(call.Args) >= 1 {
+					if sel, ok := call.Fun.(*ast.SelectorExpr); ok && (sel.Sel.Name == "Getenv" || sel.Sel.Name == "LookupEnv") {
+						switch a := call.Args[0].(type) {
+						case *ast.BasicLit:
+							if name, err := strconv.Unquote(a.Value); a.Kind == token.STRING && err == nil && name != "" {
+								envs[name] = true
+							}
+						case *ast.Ident:
+							envIdents[a.Name] = true
+						case *ast.SelectorExpr:
+							envIdents[a.Sel.Name] = true
+						}
+					}
+				}
+				if vs, ok := n.(*ast.ValueSpec); ok {
+					for i, nm := range vs.Names {
+						if i < len(vs.Values) {
+							if lit, ok := vs.Values[i].(*ast.BasicLit); ok && lit.Kind == token.STRING {
+								if v, err := strconv.Unquote(lit.Value); err == nil {
+									consts[nm.Name] = v
+								}
+							}
+						}
+					}
 				}
 				bl, ok := n.(*ast.BasicLit)
 				if !ok || bl.Kind != token.STRING {
@@ -99,7 +128,12 @@ func SourceDict(repo string) *Dict {
 			return nil
 		})
 	}
-	d := &Dict{Words: keys(words), Phrases: keys(phrases), Hot: keys(hot), NLPWords: keys(nlpW), NLPPhrases: keys(nlpP)}
+	for id := range envIdents {
+		if v := consts[id]; v != "" {
+			envs[v] = true
+		}
+	}
+	d := &Dict{Words: keys(words), Phrases: keys(phrases), Hot: keys(hot), NLPWords: keys(nlpW), NLPPhrases: keys(nlpP), EnvNames: keys(envs)}
 	dictCache[repo] = d
 	return d
 }
